@@ -75,6 +75,51 @@ def exec_quotes(node, env, lets=None):
             return
         if k == 'match':
             scr = re.sub(r'\s', '', x.get('scrut') or '')
+            if scr.startswith('(') and scr.endswith(')'):
+                # tuple scrutinee: element-wise
+                depth, cur, elems = 0, '', []
+                for ch in scr[1:-1]:
+                    if ch in '([{<':
+                        depth += 1
+                    if ch in ')]}>':
+                        depth -= 1
+                    if ch == ',' and depth == 0:
+                        elems.append(cur)
+                        cur = ''
+                    else:
+                        cur += ch
+                elems.append(cur)
+                for arm in x.get('arms') or []:
+                    pat = re.sub(r'\s', '', arm.get('pat') or '')
+                    pe = re.sub(r'^\(|\)$', '', pat)
+                    depth, cur, pels = 0, '', []
+                    for ch in pe:
+                        if ch in '([{<':
+                            depth += 1
+                        if ch in ')]}>':
+                            depth -= 1
+                        if ch == ',' and depth == 0:
+                            pels.append(cur)
+                            cur = ''
+                        else:
+                            cur += ch
+                    pels.append(cur)
+                    match_ = True
+                    for e_, p_ in zip(elems, pels):
+                        if p_ == '_' or re.fullmatch(r'[a-z_]\w*', p_) and p_ not in ('true', 'false'):
+                            continue
+                        if 'serialized_name' in e_:
+                            want = env['renamed']
+                            if p_.startswith('Some') and not want or p_ == 'None' and want:
+                                match_ = False
+                        elif 'is_optional' in e_:
+                            want = env['optional']
+                            if p_ == 'true' and not want or p_ == 'false' and want:
+                                match_ = False
+                    if match_:
+                        go(arm.get('body'))
+                        break      # first matching arm wins
+                return
             for arm in x.get('arms') or []:
                 pat = re.sub(r'\s', '', arm.get('pat') or '')
                 v = None
